@@ -25,9 +25,7 @@
 (*            err     harness-level failure (HTTP 5xx, malformed reply)    *)
 (*                                                                         *)
 (* A step is accepted when SOME admissible result of Apply explains the    *)
-(* whole observation; the state then continues from that result.  (A query *)
-(* line that only one of RewritesCore's recorded deviations -- open        *)
-(* findings of C06 -- explains is accepted too, and counted in devs.)  The *)
+(* whole observation; the state then continues from that result.  The      *)
 (* first rejected line of a history is recorded with what the spec         *)
 (* expected and the rest of that history is skipped (its state is off the  *)
 (* spec); the next history starts from the reset state again.              *)
@@ -40,19 +38,26 @@ VARIABLES l,      \* next line
           S,      \* system state of the specification
           ov,     \* the observed log view after the previous line
           skip,   \* the current history has a rejected line
-          bad,    \* the rejected lines (first of each history)
-          devs    \* [n, first]: lines explained only by an open finding of C06
-                  \* (RewritesCore's deviations), their number and the first few
-vars == <<l, S, ov, skip, bad, devs>>
+          bad     \* the rejected lines (first of each history)
+vars == <<l, S, ov, skip, bad>>
 
 \* ------------------------------------------------- JSON value -> TLA+ value
 AbsClient(j) == [name |-> j.name, ids |-> SeqToSet(j.ids), own |-> j.own, bs |-> j.bs, vals |-> j.vals,
                  svcs |-> SeqToSet(j.svcs), pause |-> j.pause, ignQ |-> j.ignQ, ignS |-> j.ignS]
+\* Access-list entries and blocked-host patterns are rebuilt with AccessCore's
+\* own constructors (the harness writes plain entries: no exception rules, no
+\* mapped or fully qualified spellings), so that fields the module adds to its
+\* records do not have to be known here.
+AbsEntry(j) == CASE j.k = "ip"   -> AC!Ip(j.fam, j.bits)
+                 [] j.k = "cidr" -> AC!Cidr(j.fam, j.bits)
+                 [] j.k = "id"   -> AC!Id(j.id)
+AbsPat(j) == AC!PatT(j.k, j.n, j.qt)
 AbsOp(j) ==
     CASE j.k = "client_add"       -> [k |-> j.k, c |-> AbsClient(j.c)]
       [] j.k = "client_update"    -> [k |-> j.k, name |-> j.name, c |-> AbsClient(j.c)]
-      [] j.k = "access_set"       -> [k |-> j.k, allowed |-> SeqToSet(j.allowed),
-                                      disallowed |-> SeqToSet(j.disallowed), hosts |-> SeqToSet(j.hosts)]
+      [] j.k = "access_set"       -> [k |-> j.k, allowed |-> {AbsEntry(x) : x \in SeqToSet(j.allowed)},
+                                      disallowed |-> {AbsEntry(x) : x \in SeqToSet(j.disallowed)},
+                                      hosts |-> {AbsPat(x) : x \in SeqToSet(j.hosts)}]
       [] j.k = "set_rules"        -> [k |-> j.k, rules |-> SeqToSet(j.rules)]
       [] j.k = "blocked_services" -> [k |-> j.k, svcs |-> SeqToSet(j.svcs)]
       [] j.k = "qlog_config"      -> [k |-> j.k, enabled |-> j.enabled, anon |-> j.anon, ignored |-> SeqToSet(j.ignored)]
@@ -79,25 +84,15 @@ Expected(r) == [out |-> r.out, log |-> LogView(r.S),
 
 Reject(ln, why, exp) == Append(bad, [l |-> l, h |-> ln.h, i |-> ln.i, why |-> why, exp |-> exp])
 
-Good(cands, ln, op, view) == {r \in cands : Why(op, r, ln.obs, view) = {}}
-
-\* The specification first; the rewrite table's recorded deviations only when
-\* it does not explain the line (queries only: nothing else depends on them).
 Judge(ln, op, view) ==
     \E cands \in {Apply(S, op)} :
-    \E good \in {Good(cands, ln, op, view)} :
+    \E good \in {{r \in cands : Why(op, r, ln.obs, view) = {}}} :
         IF good # {}
         THEN /\ S' = (CHOOSE r \in good : TRUE).S
-             /\ skip' = FALSE /\ bad' = bad /\ devs' = devs
-        ELSE \E loose \in {IF op.k = "query" THEN Good(ApplyL(S, op, RW!Deviations), ln, op, view) ELSE {}} :
-             IF loose # {}
-             THEN /\ S' = (CHOOSE r \in loose : TRUE).S
-                  /\ skip' = FALSE /\ bad' = bad
-                  /\ devs' = [n |-> devs.n + 1,
-                              first |-> IF devs.n < 20 THEN Append(devs.first, [l |-> l, h |-> ln.h, i |-> ln.i]) ELSE devs.first]
-             ELSE \E r \in {CHOOSE x \in cands : TRUE} :
-                  /\ S' = r.S /\ skip' = TRUE /\ devs' = devs
-                  /\ bad' = Reject(ln, Why(op, r, ln.obs, view), Expected(r))
+             /\ skip' = FALSE /\ bad' = bad
+        ELSE \E r \in {CHOOSE x \in cands : TRUE} :
+             /\ S' = r.S /\ skip' = TRUE
+             /\ bad' = Reject(ln, Why(op, r, ln.obs, view), Expected(r))
 
 Line ==
     /\ l <= Len(Trace)
@@ -113,11 +108,10 @@ Line ==
                                 \cup (IF StatsOK(SReset, ln.obs.stats) THEN {} ELSE {"stats"})} :
                       IF why = {} THEN skip' = FALSE /\ bad' = bad
                       ELSE skip' = TRUE /\ bad' = Reject(ln, why, Expected([S |-> SReset, out |-> "ok"]))
-                 /\ devs' = devs
-            ELSE IF skip THEN UNCHANGED <<S, skip, bad, devs>>
+            ELSE IF skip THEN UNCHANGED <<S, skip, bad>>
             ELSE Judge(ln, AbsOp(ln.op), view)
-    /\ (l' = Len(Trace) + 1 => PrintT(<<"@@V", ToJson([n |-> Len(Trace), bad |-> bad', devs |-> devs'])>>))
+    /\ (l' = Len(Trace) + 1 => PrintT(<<"@@V", ToJson([n |-> Len(Trace), bad |-> bad'])>>))
 
-Init == l = 1 /\ S = S0 /\ ov = <<>> /\ skip = FALSE /\ bad = <<>> /\ devs = [n |-> 0, first |-> <<>>]
+Init == l = 1 /\ S = S0 /\ ov = <<>> /\ skip = FALSE /\ bad = <<>>
 Spec == Init /\ [][Line]_vars
 =============================================================================
